@@ -71,6 +71,56 @@ def case(task):
     return msgs, out.get(True, (None, 0, 0))[2] - out.get(True, (None, 0, 0))[1]
 
 
+def twobasin(N, lo, up, a, b):
+    lo = np.array(lo, dtype=float)
+    w = np.array(up, dtype=float) - lo
+    ca, cb = np.full(N, a), np.full(N, b)
+    return lambda y: float(min(-1.0 + 30.0 * np.max(np.abs((np.asarray(y) - lo) / w - ca)),
+                               -2.0 + 30.0 * np.max(np.abs((np.asarray(y) - lo) / w - cb))))
+
+
+def refine_history(task):
+    """step-wise history: DoGlobalIteration(k1), DoLocalRefinement(n), DoGlobalIteration(k2), DoLocalRefinement(n).
+    After each refinement: every evaluation so far inside the box, reported value == objective at the reported point,
+    reported value <= best global-phase value so far, reported point inside the box."""
+    N, bx, a, b, k1, k2, nloc = task["N"], task["box"], task["a"], task["b"], task["k1"], task["k2"], task["nloc"]
+    lo, up = box(bx, N)
+    f = twobasin(N, lo, up, a, b)
+    lo_a, up_a = np.array(lo), np.array(up)
+    cfg = dict(N=N, box=bx, r=3.0, eps=0.0, itersLimit=10 ** 6)
+    run = tree.make_run(cfg, lambda k, y: f(y))
+    msgs = []
+    tag = f"two-basin objective (minima at u={a}, u={b}), N={N} box={bx}"
+    hist = []
+    try:
+        for step, (kind, n) in enumerate((("g", k1), ("l", nloc), ("g", k2), ("l", nloc))):
+            hist.append(f"DoGlobalIteration({n})" if kind == "g" else f"DoLocalRefinement({n})")
+            if kind == "g":
+                run.step(n)
+                continue
+            run.refine(n, f)
+            sol = run.solver.GetResults()
+            bp = np.array(sol.bestTrials[0].point.floatVariables, dtype=float)
+            bv = sol.bestTrials[0].functionValues[0].value
+            gbest = min(v for _, v in run.problem.log)
+            where = f"{tag}: after {hist}"
+            for y, v in run.problem.log + run.problem.local_log:
+                if np.any(y < lo_a) or np.any(y > up_a):
+                    msgs.append(f"{where}: objective evaluated at {y.tolist()}, outside the box")
+                    break
+            if np.any(bp < lo_a) or np.any(bp > up_a):
+                msgs.append(f"{where}: reported point {bp.tolist()} outside the box")
+            if not (bv == f(bp)):
+                msgs.append(f"{where}: reported value {bv!r} but the objective at the reported point is {f(bp)!r}")
+            if not (bv <= gbest):
+                msgs.append(f"{where}: refinement reports {bv!r}, worse than the best global-phase trial {gbest!r}")
+            if msgs:
+                break
+    except BaseException as e:
+        msgs.append(f"{tag}: {hist} raised {type(e).__name__}: {e}")
+    return msgs
+
+
 def lattice(N, th):
     objs = []
     for a in itertools.product((-1, 0, 1), repeat=N):
@@ -115,6 +165,15 @@ def run(ctx):
             for bx in boxes:
                 for lim in ((60, 200) if th else (200,)):
                     tasks.append(dict(N=N, box=bx, kind=kind, par=par, limit=lim))
+    htasks = []
+    for N in (1, 2):
+        for (a, b) in ((0.12, 0.83), (0.83, 0.12), (0.4, 0.9)):
+            for k1 in range(2, 13 if not th else 20):
+                for k2 in range(1, 13 if not th else 20):
+                    htasks.append(dict(N=N, box="B1" if N == 1 else "B2", a=a, b=b, k1=k1, k2=k2, nloc=30))
+    for t, msgs in zip(htasks, pmap(refine_history, htasks, chunksize=8)):
+        for m in msgs:
+            res.add_violation(dict(driver="refine_history", **t, message=m, sig={}))
     out = pmap(case, tasks, chunksize=8)
     local_evals = 0
     boundary = 0
@@ -130,7 +189,7 @@ def run(ctx):
         rule="one pair of executions (refineSolution off / on) per (N, box, objective of the lattice, itersLimit); every "
              "Calculate argument logged; non-trivial = objectives whose unconstrained minimum lies on the boundary or "
              "outside the box",
-        exhaustive=True, configurations=len(tasks), boxes=sorted({t["box"] for t in tasks}), local_phase_evaluations=local_evals,
+        exhaustive=True, configurations=len(tasks), refinement_histories=len(htasks), boxes=sorted({t["box"] for t in tasks}), local_phase_evaluations=local_evals,
         states=len(tasks), transitions=2 * len(tasks), traces_validated_against_impl=2 * len(tasks),
         samples=tasks[:2] + tasks[-1:],
     )
@@ -139,4 +198,6 @@ def run(ctx):
 
 
 def replay(rec):
+    if rec.get("driver") == "refine_history":
+        return refine_history(rec)
     return case(rec)[0]
